@@ -164,8 +164,15 @@ fn check_wire(head: &[u8], eff: &Eff, rec: &mut Rec) -> bool {
 
 /// Second workload: intermediate hops' wire form (every hop's request head is checked).
 fn wire_case(rng: &mut Rng, rec: &mut Rec) {
-    let cfg = ReqCfg::new("GET", &clean_start_uri(rng));
+    // every method that survives a redirect, under every followed status
+    let method = *rng.pick(&["GET", "GET", "HEAD", "OPTIONS", "TRACE", "POST", "DELETE"]);
+    let mut cfg = ReqCfg::new(method, &clean_start_uri(rng));
     let original = split_uri(&cfg.uri);
+    if rng.chance(1, 4) {
+        // the caller spelled out the Host of the first request itself
+        cfg.orig.push(("host".into(), host_of(&original).into_bytes()));
+        rec.cov("wire/original-with-explicit-host");
+    }
     let mut eff = initial_eff(&cfg);
     let mut flow = match build_flow(&cfg) {
         Ok(f) => f,
@@ -173,8 +180,11 @@ fn wire_case(rng: &mut Rng, rec: &mut Rec) {
     };
     for hop_i in 0..rng.usize_in(2, 4) {
         let (_kind, loc) = clean_location(rng, &original);
-        let hop = Hop { status: 302, locations: vec![loc.clone().into_bytes()], with_body: false };
+        let hop = Hop { status: *rng.pick(&[302u16, 302, 301, 303, 307, 308]), locations: vec![loc.clone().into_bytes()], with_body: false };
         rec.call();
+        if hop_i > 0 {
+            rec.cov(&format!("wire/{}-request-after-redirect", eff.method));
+        }
         let (head, followed) = match follow_one_head(flow, &cfg, &eff, &original, &hop, RedirectAuthHeaders::Never) {
             Ok(v) => v,
             Err(e) => return rec.fail("C14/hop-failed", format!("hop {} Location {:?}: {}", hop_i, loc, e)),
@@ -198,9 +208,27 @@ const HOSTILE: [&[u8]; 36] = [
     b"http://ex\xc3\xa4mple.test/", b"http://EVIL.test/", b"http://evil.test./", b"http://a.test@evil.test/", b"http://a.test%2f@evil.test/", b"http://evil.test#@a.test/", b"http://evil.test?@a.test/", b"//evil.test:80:80/", b"http://b.test:0080/x",
 ];
 
+/// Long values that are not text: whatever the error keeps of them, cutting it must not panic.
+fn long_non_textual(i: usize) -> Vec<u8> {
+    let n = 250 + i / 4;
+    let mut v = vec![b'a'; n];
+    v.extend_from_slice([&b"\xc3\xa9"[..], b"\xff", b"\xe2\x82\xac", b"\xf0\x9f\x98\x80"][i % 4]);
+    v.extend_from_slice(&vec![b'b'; 300]);
+    v
+}
+const LONG_NON_TEXTUAL: usize = 4 * 14;
+
 fn hostile_case(idx: u64, rec: &mut Rec) {
-    let kind = idx / HOSTILE.len() as u64;
-    let loc = HOSTILE[(idx % HOSTILE.len() as u64) as usize];
+    let kind = idx / (HOSTILE.len() + LONG_NON_TEXTUAL) as u64;
+    let which = (idx % (HOSTILE.len() + LONG_NON_TEXTUAL) as u64) as usize;
+    let long;
+    let loc: &[u8] = if which < HOSTILE.len() {
+        HOSTILE[which]
+    } else {
+        long = long_non_textual(which - HOSTILE.len());
+        rec.cov("hostile/long-non-textual");
+        &long
+    };
     let start = ["http://a.test/dir/file?q=1", "https://a.test", "http://a.test:8080/x/"][(kind % 3) as usize];
     let cfg = ReqCfg::new("GET", start);
     let base = split_uri(start);
@@ -357,7 +385,7 @@ impl Property for P {
         "C14"
     }
     fn rule(&self) -> String {
-        "chains of 1..4 redirects; Locations from a clean grammar on which RFC 3986 and WHATWG agree (absolute http/https with and without ports incl. explicit defaults and empty path, scheme-relative, path-absolute, relative with ./ ../ and dotted segment names, query-only, empty, fragments), 1..3 Location fields per response (last counts). Oracle: an independent implementation of RFC 3986 section 5.2 (validated on the section 5.4 examples) applied to the URI of the request just made; compared after scheme-based normalisation with Flow<Prepare>::uri(); fragment must be gone; the request line must carry that URI's path and query and Host its host (checked on the wire for the last and for intermediate hops). Missing and non-UTF-8 Locations must be errors. A hostile list (backslashes, userinfo tricks, bad ports, IPv6, other schemes, control characters, percent-encoded dots) is checked with the weak oracle only: no panic, and never a request to a host that is neither the base host nor named in the Location. class = reference kind x base shape x hop.".into()
+        "chains of 1..4 redirects; Locations from a clean grammar on which RFC 3986 and WHATWG agree (absolute http/https with and without ports incl. explicit defaults and empty path, scheme-relative, path-absolute, relative with ./ ../ and dotted segment names, query-only, empty, fragments), 1..3 Location fields per response (last counts). Oracle: an independent implementation of RFC 3986 section 5.2 (validated on the section 5.4 examples) applied to the URI of the request just made; compared after scheme-based normalisation with Flow<Prepare>::uri(); fragment must be gone; the request line must carry that URI's path and query and Host its host (checked on the wire for the last and for intermediate hops). Missing and non-UTF-8 Locations must be errors. A hostile list (backslashes, userinfo tricks, bad ports, IPv6, other schemes, control characters, percent-encoded dots) is checked with the weak oracle only: no panic, and never a request to a host that is neither the base host nor named in the Location. The wire workload runs GET/HEAD/OPTIONS/TRACE/POST/DELETE through 301/302/303/307/308, a quarter of them with the Host of the first request spelled out; the hostile list includes 56 non-textual values around 256 bytes. class = reference kind x base shape x hop.".into()
     }
     fn assumptions(&self) -> Vec<String> {
         vec![
@@ -369,7 +397,7 @@ impl Property for P {
         vec![
             Workload::new("chains", tier.pick(20_000, 8_000_000), false, "random clean chains, URI compared at every hop"),
             Workload::new("wire", tier.pick(5_000, 2_000_000), false, "request line and Host of every intermediate hop"),
-            Workload::new("hostile", (HOSTILE.len() * 3) as u64, true, "hostile Locations x 3 bases, weak oracle"),
+            Workload::new("hostile", ((HOSTILE.len() + LONG_NON_TEXTUAL) * 3) as u64, true, "hostile Locations (36 hand-picked + 56 long non-textual ones around 256 bytes) x 3 bases, weak oracle"),
             Workload::new("partial-two-locations", 54, true, "opt-in truncated 3xx heads carrying two different Location fields"),
             Workload::new("missing", 108, true, "missing / non-textual Location, alone, as the last of several fields, and after interim responses that carry a Location"),
         ]
